@@ -647,6 +647,7 @@ def alias_kernel_rules(ck, fam, facts, seen_fail):
         ck.note("C02.alias-safe-transpose: no call site passes the same array for r and x any more; the kernel is not required to be alias safe")
         return
     SHAPES = [(1, 1), (2, 2), (2, 3), (3, 2), (3, 3), (1, 4), (4, 1)]
+    by_decl = {f.d.get("decl"): f for f in facts.functions if f.body is not None}
     for fn in kernels:
         names = [p["n"] for p in fn.params]
         if names[:2] != ["r", "x"] or len(names) < 4:
@@ -655,95 +656,112 @@ def alias_kernel_rules(ck, fam, facts, seen_fail):
         dr, dx = fn.params[0]["d"], fn.params[1]["d"]
         key = L.fkey(fn)
         problems, hazards, nchecked = [], [], 0
-        # local pointers / references derived from r or x (cursors `DT_* dst = r + k`, `const DT_* src(x)`): accesses through
-        # them are accesses to the two arrays, which the enumeration below does not follow
-        derived = set()
-        changed = True
-        while changed:
-            changed = False
-            for n_ in fn.nodes():
-                tgt, src = None, None
-                if n_.get("k") == "Var" and n_.get("init") is not None and ("*" in (fn.type(n_.get("t")) or "") or n_.get("ref")):
-                    tgt, src = n_["d"], n_["init"]
-                elif n_.get("k") == "Assign" and L.unwrap(n_["lhs"]).get("k") == "Ref" and "*" in (fn.ntype(L.unwrap(n_["lhs"])) or ""):
-                    tgt, src = L.unwrap(n_["lhs"])["d"], n_["rhs"]
-                if tgt is not None and tgt not in derived and tgt not in (dr, dx) and \
-                        any(y.get("k") == "Ref" and (y.get("d") in (dr, dx) or y.get("d") in derived) for y in walk(src)) and \
-                        not any(is_call(y) and str(y.get("callee", "")) in ("operator new[]", "malloc", "std::malloc") for y in walk(src)) and \
-                        not any(y.get("k") == "New" for y in walk(src)):
-                    derived.add(tgt)
-                    changed = True
-        if derived:
-            names = sorted({n_["n"] for n_ in fn.nodes() if n_.get("k") == "Var" and n_.get("d") in derived})
-            used = any((y.get("k") == "Index" and L.unwrap(y["b"]).get("d") in derived) or (y.get("k") == "Un" and y.get("op") == "*" and
-                       any(z.get("k") == "Ref" and z.get("d") in derived for z in walk(y["e"]))) for y in fn.nodes())
-            if used:
-                ck.incomplete("C02.alias-safe-transpose", "%s: the arrays r / x are accessed through derived pointers (%s), which the index enumeration does not follow" % (key, ", ".join(names)))
-                continue
         loop_ids = {}
         for (R, C) in SHAPES:
-            env = {fn.params[2]["d"]: R, fn.params[3]["d"]: C}
-            written = {}                 # address -> loop ordinal that stored it
+            # values: integers, or pointers ("ptr", array tag, offset, view).  Under r == x both parameters point at element 0 of
+            # the one array "A"; the view records through which of the two names (or a pointer derived from it) it is accessed:
+            # x is the source (const), r the destination
+            env = {fn.params[2]["d"]: R, fn.params[3]["d"]: C, dr: ("ptr", "A", 0, "r"), dx: ("ptr", "A", 0, "x")}
+            written = {}                 # address in A -> loop ordinal that stored it
             steps = [0]
+            nbuf = [0]
 
-            def ev(e):
+            class _Ret(Exception):
+                pass
+
+            def isptr(v):
+                return isinstance(v, tuple) and v and v[0] == "ptr"
+
+            def ev(e, env):
                 e = L.unwrap(e)
                 k = e.get("k")
                 if k == "Int":
                     return int(e["v"])
                 if k == "Bool":
                     return bool(e["v"])
+                if k == "SizeOf" and e.get("v") is not None:
+                    return int(e["v"])
                 if k in ("Construct", "TempObj", "Cast") and (len(e.get("a", [])) == 1 or e.get("e") is not None):
-                    return ev(e["a"][0] if e.get("a") else e["e"])
+                    return ev(e["a"][0] if e.get("a") else e["e"], env)
+                if k == "New":
+                    nbuf[0] += 1
+                    return ("ptr", "T%d" % nbuf[0], 0, "t")
                 if k == "Ref":
                     if e.get("d") in env:
                         return env[e["d"]]
                     raise _NoEval(render(e))
                 if k == "Un" and e.get("op") == "!":
-                    return not ev(e["e"])
+                    return not ev(e["e"], env)
                 if k == "Un" and e.get("op") == "-":
-                    return -ev(e["e"])
+                    return -ev(e["e"], env)
+                if k == "Un" and e.get("op") == "&" and L.unwrap(e["e"]).get("k") == "Index":
+                    x0 = L.unwrap(e["e"])
+                    b_, i_ = ev(x0["b"], env), ev(x0["idx"], env)
+                    if isptr(b_) and isinstance(i_, int):
+                        return ("ptr", b_[1], b_[2] + i_, b_[3])
+                    raise _NoEval(render(e)[:40])
                 if k == "Bin":
                     op = e["op"]
-                    if op in ("==", "!="):
-                        ds = {L.unwrap(e["lhs"]).get("d"), L.unwrap(e["rhs"]).get("d")}
-                        if ds == {dr, dx}:
-                            return op == "=="          # r == x holds on the analysed runs
                     if op == "&&":
-                        return bool(ev(e["lhs"])) and bool(ev(e["rhs"]))
+                        return bool(ev(e["lhs"], env)) and bool(ev(e["rhs"], env))
                     if op == "||":
-                        return bool(ev(e["lhs"])) or bool(ev(e["rhs"]))
-                    a, b = ev(e["lhs"]), ev(e["rhs"])
+                        return bool(ev(e["lhs"], env)) or bool(ev(e["rhs"], env))
+                    a, b = ev(e["lhs"], env), ev(e["rhs"], env)
+                    if isptr(a) or isptr(b):
+                        if op in ("==", "!=") and isptr(a) and isptr(b):
+                            same = a[1] == b[1] and a[2] == b[2]
+                            return same if op == "==" else not same
+                        if op == "+" and isptr(a) != isptr(b):
+                            p_, n_ = (a, b) if isptr(a) else (b, a)
+                            return ("ptr", p_[1], p_[2] + int(n_), p_[3])
+                        if op == "-" and isptr(a) and not isptr(b):
+                            return ("ptr", a[1], a[2] - int(b), a[3])
+                        if op == "-" and isptr(a) and isptr(b) and a[1] == b[1]:
+                            return a[2] - b[2]
+                        if op in ("<", "<=", ">", ">=") and isptr(a) and isptr(b) and a[1] == b[1]:
+                            return {"<": a[2] < b[2], "<=": a[2] <= b[2], ">": a[2] > b[2], ">=": a[2] >= b[2]}[op]
+                        raise _NoEval("pointer expression %s" % render(e)[:40])
                     if op in ("/", "%") and b == 0:
                         raise _NoEval("division by zero")
+                    if op not in ("+", "-", "*", "/", "%", "==", "!=", "<", "<=", ">", ">="):
+                        raise _NoEval(op)
                     return {"+": a + b, "-": a - b, "*": a * b, "/": a // b if op == "/" else 0, "%": a % b if op == "%" else 0,
-                            "==": a == b, "!=": a != b, "<": a < b, "<=": a <= b, ">": a > b, ">=": a >= b}.get(op, None) if op in (
-                        "+", "-", "*", "/", "%", "==", "!=", "<", "<=", ">", ">=") else (_ for _ in ()).throw(_NoEval(op))
+                            "==": a == b, "!=": a != b, "<": a < b, "<=": a <= b, ">": a > b, ">=": a >= b}[op]
                 raise _NoEval(render(e)[:40])
 
-            def accesses(n, loopno):
-                """loads (through x or r) then the store of one assignment statement"""
-                lhs = L.unwrap(n["lhs"])
-                loads = [x for x in walk(n["rhs"]) if x.get("k") == "Index" and L.unwrap(x["b"]).get("d") in (dx, dr)]
-                for l in loads:
-                    a = ev(l["idx"])
-                    if L.unwrap(l["b"]).get("d") == dx and a in written:
-                        hazards.append((R, C, render(l)[:40], a, loopno, written[a]))
-                if lhs.get("k") == "Index" and L.unwrap(lhs["b"]).get("d") == dr:
-                    written[ev(lhs["idx"])] = loopno
-                elif lhs.get("k") == "Index" and L.unwrap(lhs["b"]).get("d") == dx:
-                    raise _NoEval("store through x")
+            def address(node, env):
+                """(array tag, offset, view) an lvalue / rvalue element expression `p[i]` / `*p` denotes, or None"""
+                node = L.unwrap(node)
+                if node.get("k") == "Index":
+                    b_, i_ = ev(node["b"], env), ev(node["idx"], env)
+                elif node.get("k") == "Un" and node.get("op") == "*":
+                    b_, i_ = ev(node["e"], env), 0
+                else:
+                    return None
+                if not isptr(b_) or not isinstance(i_, int):
+                    raise _NoEval("element access %s" % render(node)[:40])
+                return b_[1], b_[2] + i_, b_[3]
 
-            def run(n, loopno):
+            def element_reads(expr, env, loopno):
+                for x in walk(expr):
+                    if x.get("k") == "Index" or (x.get("k") == "Un" and x.get("op") == "*"):
+                        try:
+                            ad = address(x, env)
+                        except _NoEval:
+                            raise
+                        if ad is not None and ad[0] == "A" and ad[2] == "x" and ad[1] in written:
+                            hazards.append((R, C, render(x)[:40], ad[1], loopno, written[ad[1]]))
+
+            def run(n, loopno, env, depth=0):
                 if n is None:
                     return True
                 steps[0] += 1
-                if steps[0] > 20000:
+                if steps[0] > 40000:
                     raise _NoEval("too many steps")
                 k = n.get("k")
                 if k == "Block":
                     for s_ in n.get("s", []):
-                        if not run(s_, loopno):
+                        if not run(s_, loopno, env, depth):
                             return False
                     return True
                 if k == "Null_":
@@ -751,27 +769,34 @@ def alias_kernel_rules(ck, fam, facts, seen_fail):
                 if k == "Decl":
                     for v in n.get("vars", []):
                         if v.get("init") is not None:
+                            element_reads(v["init"], env, loopno)
                             try:
-                                env[v["d"]] = ev(v["init"])
+                                env[v["d"]] = ev(v["init"], env)
                             except _NoEval:
-                                env.pop(v["d"], None)        # a pointer / buffer: never part of an index
+                                i0 = L.unwrap(v["init"])
+                                while i0.get("k") in ("Construct", "TempObj", "Cast") and (len(i0.get("a", [])) == 1 or i0.get("e") is not None):
+                                    i0 = L.unwrap(i0["a"][0] if i0.get("a") else i0["e"])
+                                is_value = i0.get("k") == "Index" or (i0.get("k") == "Un" and i0.get("op") == "*") or i0.get("k") in ("Float", "Bin") and not v.get("ref")
+                                if not is_value and any(y.get("k") == "Ref" and isptr(env.get(y.get("d"))) and env[y["d"]][1] == "A" for y in walk(v["init"])):
+                                    raise          # a pointer / reference into the array that the evaluation cannot follow
+                                env.pop(v["d"], None)        # a value / foreign buffer: never part of an index into the array
                     return True
                 if k == "If":
-                    return run(n["then"], loopno) if ev(n["c"]) else (run(n["else"], loopno) if n.get("else") is not None else True)
+                    return run(n["then"], loopno, env, depth) if ev(n["c"], env) else (run(n["else"], loopno, env, depth) if n.get("else") is not None else True)
                 if k == "For":
                     ln = loop_ids.setdefault(n.get("i"), len(loop_ids)) if loopno is None else loopno
                     if n.get("init") is not None:
-                        run(n["init"], ln)
-                    while n.get("c") is None or ev(n["c"]):
-                        if not run(n.get("body"), ln):
+                        run(n["init"], ln, env, depth)
+                    while n.get("c") is None or ev(n["c"], env):
+                        if not run(n.get("body"), ln, env, depth):
                             return False
                         if n.get("inc") is not None:
-                            run(n["inc"], ln)
+                            run(n["inc"], ln, env, depth)
                     return True
                 if k == "While":
                     ln = loop_ids.setdefault(n.get("i"), len(loop_ids)) if loopno is None else loopno
-                    while ev(n["c"]):
-                        if not run(n.get("body"), ln):
+                    while ev(n["c"], env):
+                        if not run(n.get("body"), ln, env, depth):
                             return False
                     return True
                 if k == "Return":
@@ -779,39 +804,74 @@ def alias_kernel_rules(ck, fam, facts, seen_fail):
                 if k == "Assign":
                     lhs = L.unwrap(n["lhs"])
                     if lhs.get("k") == "Ref" and n.get("op") in ("=", "+=", "-="):
-                        v = ev(n["rhs"])
-                        env[lhs["d"]] = v if n["op"] == "=" else env[lhs["d"]] + (v if n["op"] == "+=" else -v)
+                        element_reads(n["rhs"], env, loopno)
+                        v = ev(n["rhs"], env)
+                        if n["op"] == "=":
+                            env[lhs["d"]] = v
+                        else:
+                            cur = env[lhs["d"]]
+                            if isptr(cur):
+                                env[lhs["d"]] = ("ptr", cur[1], cur[2] + (v if n["op"] == "+=" else -v), cur[3])
+                            else:
+                                env[lhs["d"]] = cur + (v if n["op"] == "+=" else -v)
                         return True
-                    if n.get("op") != "=" and lhs.get("k") == "Index" and L.unwrap(lhs["b"]).get("d") == dr:
-                        a = ev(lhs["idx"])       # compound store also loads r[a]: that is the element itself
-                    accesses(n, loopno)
+                    element_reads(n["rhs"], env, loopno)
+                    ad = address(lhs, env)
+                    if ad is None:
+                        raise _NoEval("store %s" % render(lhs)[:40])
+                    if ad[0] == "A":
+                        if ad[2] == "x":
+                            raise _NoEval("store through x")
+                        written[ad[1]] = loopno
                     return True
                 if k == "Un" and n.get("op") in ("++", "--") and L.unwrap(n["e"]).get("k") == "Ref":
                     d = L.unwrap(n["e"])["d"]
-                    env[d] = env[d] + (1 if n["op"] == "++" else -1)
+                    cur = env[d]
+                    dlt = 1 if n["op"] == "++" else -1
+                    env[d] = ("ptr", cur[1], cur[2] + dlt, cur[3]) if isptr(cur) else cur + dlt
                     return True
                 if is_call(n):
                     cal = str(n.get("callee", ""))
                     args = n.get("a") or []
                     if cal in ("memcpy", "std::memcpy", "memmove", "std::memmove") and len(args) == 3:
-                        dst, src = L.unwrap(args[0]), L.unwrap(args[1])
-                        if src.get("d") == dx and written:
+                        dst, src = ev(args[0], env), ev(args[1], env)
+                        if isptr(src) and src[1] == "A" and src[3] == "x" and written:
                             hazards.append((R, C, render(n)[:40], -1, loopno, min(written.values())))
-                        if dst.get("d") in (dr, dx):
+                        if isptr(dst) and dst[1] == "A":
                             raise _NoEval("memcpy into r")
                         return True
-                    if n.get("k") in ("New", "Delete") or cal in ("operator new[]", "operator delete[]"):
+                    if n.get("k") in ("New", "Delete") or cal in ("operator new[]", "operator delete[]", "FEAT::assertion"):
                         return True
-                    for a in args:
-                        if any(L.unwrap(x).get("d") in (dr, dx) for x in walk(a) if x.get("k") == "Ref"):
-                            raise _NoEval("r / x passed to %s" % (cal or "a call"))
+                    vals = []
+                    touches = False
+                    for a_ in args:
+                        try:
+                            v = ev(a_, env)
+                        except _NoEval:
+                            v = None
+                        vals.append(v)
+                        if isptr(v) and v[1] == "A":
+                            touches = True
+                    if not touches:
+                        return True
+                    # a helper working on the array: follow its body with the parameters bound (bounded depth)
+                    g = by_decl.get(n.get("cdecl"))
+                    if g is None or depth >= 3 or len(g.params) != len(args) or g.d.get("virtual"):
+                        raise _NoEval("r / x passed to %s" % (cal or "a call"))
+                    env2 = dict(env)
+                    for p_, v in zip(g.params, vals):
+                        if v is None:
+                            env2.pop(p_["d"], None)
+                        else:
+                            env2[p_["d"]] = v
+                    run(g.body, loopno if loopno is not None else loop_ids.setdefault(("call", n.get("i")), len(loop_ids)), env2, depth + 1)
                     return True
                 if k in ("New", "Delete"):
                     return True
                 raise _NoEval("statement %s" % render(n)[:50])
 
             try:
-                run(fn.body, None)
+                run(fn.body, None, env)
                 nchecked += 1
             except (_NoEval, KeyError, TypeError) as e:
                 problems.append("shape %dx%d: %s" % (R, C, e))
